@@ -13,7 +13,8 @@ Driver/C02 — runs the parser front ends of Model/ParseGuards on the harness' r
         has no front-end model) the observed class is repeated — except for the parsers with a
         COMPLETE model (root: C03's RootFile.parse; espec: ParseFronts.ESpec grammar; bpsv /
         buildinfo: C15's Bpsv.parse, both on all-ASCII inputs; lru: C07's Lru.deserialize;
-        updsec / residency: always ok; localhdr: ok iff ≥ 30 bytes), where ok|err is PREDICTED;
+        updsec / residency: always ok; localhdr: ok iff ≥ 30 bytes; lruload: deserialize + the link
+        check of LruManager::load_from_disk; enchdr: blte::EncryptedHeader::read), where ok|err is PREDICTED;
         blte: `Blte.frontKeys` with the key store of the `keys` line (encrypted chunks: the header
         of decrypt_chunk_with_keys decides err before the cipher runs); encchunk: one encrypted
         chunk payload through `Blte.encFront`;
@@ -126,6 +127,10 @@ def exactOf (parser : String) (d : Bytes) : Option Bool :=
   | "bpsv" | "buildinfo" =>
     if isAscii d then some (match Model.Bpsv.parse (asChars d) with | .ok _ => true | .error _ => false) else none
   | "lru" => some (Model.Integrity.Lru.deserialize md5H d).isSome
+  | "lruload" => some (Model.ParseFronts.Lru.loadOk md5H d)
+  -- the list operations behind an accepted load are a body (oracle-only); a refused load is predicted
+  | "lruuse" => if Model.ParseFronts.Lru.loadOk md5H d then none else some false
+  | "enchdr" => some (Model.ParseFronts.EncHdr.read d)
   | "updsec" | "residency" => some true
   | "localhdr" => some (Model.ParseFronts.LHdr.front d).isSome
   | _ => none
